@@ -43,7 +43,8 @@ LAM = {"l1": 0.3, "l2sq": 0.5, "box": (-0.25, 0.4), "boxfar": (0.0, 1e12)}   # b
 
 
 def bounds(tier):
-    return {"matrices": MATS, "g": ["none", "l1(0.3)", "l2sq(0.5)", "box(-0.25,0.4) (real data only)"],
+    return {"matrices": MATS + (["5x3 real (2)", "4x3 complex (2)", "4x4 real", "6x4 complex", "3x3 complex"] if tier == "thorough" else []),
+            "g": ["none", "l1(0.3)", "l2sq(0.5)", "box(-0.25,0.4) (real data only)", "box(0,1e12) (real data only)"],
             "prefix horizon K": (150 if tier == "quick" else 400), "worst-case instance": "difference matrix with 100 unknowns, K = 2000 prefixes, g in {none, l2sq}",
             "GradientMethod": {"alpha": ["1/L", "1/(2L)"], "accelerate": [False, True], "x0": ["zero", "generic"]},
             "PDHG": {"steps": ["balanced c=1", "balanced c=1/sqrt2", "unbalanced tau=1/||A||^2,sigma=1", "diagonal arrays"],
